@@ -79,6 +79,116 @@ def case(item):
     return res
 
 
+CLI_OPTIONS = ("proposal", "num_particles", "resample_threshold", "outlier_prob", "subtree_update_prob", "thin", "burnin", "max_time",
+               "concentration_update", "num_chains", "density", "grid_size", "num_iters")
+
+
+def cli_items(tier):
+    """One option at a time (pairs in thorough) over the values the repository's click declarations accept."""
+    from mc import clidrv
+
+    params = clidrv.run_params()
+    alphabet = {}
+    for name in CLI_OPTIONS:
+        if name not in params:
+            alphabet[name] = None  # reported by the case itself
+            continue
+        vals = clidrv.boundary_values(params[name])
+        if name == "max_time":
+            vals = [("0", 0.0), ("inf", float("inf")), ("1e-09", 1e-9)]
+        alphabet[name] = vals
+    singles = [((name, v[0]),) for name in CLI_OPTIONS for v in (alphabet[name] or [("?", None)])]
+    items = []
+    for ov in singles:
+        for ds in ((1, 1, False), (3, 2, True)):
+            items.append((ds, ov))
+    if tier == "thorough":
+        names = [n_ for n_ in CLI_OPTIONS if alphabet[n_]]
+        for a, b in itertools.combinations(names, 2):
+            for va in alphabet[a][:3]:
+                for vb in alphabet[b][:3]:
+                    items.append(((2, 1, False), ((a, va[0]), (b, vb[0]))))
+    return items
+
+
+def cli_case(item):
+    """`phyclone run` through the real command line (click) in this process, pool replaced by an in-process executor."""
+    import os
+    from phyclone.tree import Tree
+    from mc import clidrv
+
+    (n_mut, n_samp, clustered), overrides = item
+    res = {"item": item, "problems": [], "entries": 0}
+    params = clidrv.run_params()
+    d = clidrv.scratch("c19cli_")
+    try:
+        f, cf = clidrv.write_input(d, n_mut, n_samp, clustered)
+        out = os.path.join(d, "trace.pkl.gz")
+        base = {"num_iters": "3", "burnin": "1", "num_particles": "2", "grid_size": "11", "seed": "5", "print_freq": "1000"}
+        flags = []
+        eff = {}
+        for name, val in overrides:
+            if name not in params:
+                res["problems"].append("the command line no longer has an option for %s" % name)
+                return res
+            p_ = params[name]
+            if p_.is_flag:
+                pos, neg = clidrv.flag_strings(p_)
+                flags.append(pos if val == "on" else neg)
+                eff[name] = (val == "on")
+            else:
+                base[name] = val
+        argv = ["run", "-i", f, "-o", out]
+        if cf:
+            argv += ["--cluster-file", cf]
+        for name, val in base.items():
+            argv += [clidrv.opt_string(params[name]), val]
+        argv += flags
+        S.clear_caches()
+        nchains = max(1, int(base.get("num_chains", "1")))
+        code, exc, stdout = clidrv.invoke(argv, completion_order=list(range(nchains))[::-1])
+        label = " ".join("%s=%s" % ov for ov in overrides)
+        if exc is not None or code != 0:
+            import traceback
+
+            where = ""
+            if exc is not None and exc.__traceback__ is not None:
+                tb = traceback.extract_tb(exc.__traceback__)[-1]
+                where = " @ %s:%d" % (tb.filename.split("/")[-1], tb.lineno)
+            res["problems"].append("phyclone run %s: exit code %r, %s: %s%s" % (label, code, type(exc).__name__ if exc is not None else "no exception", (str(exc) if exc is not None else stdout[-150:])[:150], where))
+            return res
+        results = clidrv.read_trace(out)
+        if len(results) != nchains:
+            res["problems"].append("phyclone run %s: trace holds %d chains, asked for %d" % (label, len(results), nchains))
+        want_n = (n_mut - 1) if clustered else n_mut
+        for c, r in results.items():
+            idxs = {dp.idx for dp in r["data"]}
+            if len(idxs) != want_n:
+                res["problems"].append("phyclone run %s: %d data points loaded, input has %d" % (label, len(idxs), want_n))
+            if not r["trace"]:
+                res["problems"].append("phyclone run %s: chain %r has an empty trace" % (label, c))
+            for k, e in enumerate(r["trace"]):
+                res["entries"] += 1
+                v = e["log_p_one"]
+                if not (isinstance(v, (float, np.floating)) and math.isfinite(v)):
+                    res["problems"].append("phyclone run %s: entry %d records log_p_one = %r" % (label, k, v))
+                    break
+                try:
+                    t = Tree.from_dict(e["tree"])
+                except Exception as ex:
+                    res["problems"].append("phyclone run %s: entry %d does not restore: %s" % (label, k, ex))
+                    break
+                wf = wellformed(t, idxs)
+                if wf:
+                    res["problems"].append("phyclone run %s: entry %d is not a well-formed tree over all data: %s" % (label, k, wf[0]))
+                    break
+    except Exception as e:
+        res["problems"].append("harness: %s: %s" % (type(e).__name__, str(e)[:150]))
+    finally:
+        clidrv.cleanup(d)
+    return res
+
+
 def grid_a():
     out = []
     for n in (1, 2, 3):
@@ -112,7 +222,8 @@ def main(tier, seed):
     chk.rule = ("run_phyclone_chain under EnumRNG + virtual clock. Grid A (972 configs, full cross): data points {1,2,3} x proposal x particles {1,2,3} x resample threshold "
                 "{0,.5,1} x outlier probability {0,1e-4,.5,1} x subtree-update probability {0,.5,1}. Grid C: the real main loop (_run_main_sampler, 2 iterations) started from EVERY tree over 3 data points x proposal x subtree-update probability {0,1}, outlier modelling on. Grid B (384 configs): thin x burn-in x time limit {0,inf} x concentration "
                 "update x samples {1,2} x data-point/prune-regraft sample counts {0,1} x proposal. Every config: deviation bound 0 under 4 default policies; bound 1 "
-                "(quick: Grid A with <=2 data points + every 3rd other config, capped) / bound 2 for single-data-point configs (thorough); non-trivial = config whose exploration ran >= 2 executions")
+                "(quick: Grid A with <=2 data points + every 3rd other config, capped) / bound 2 for single-data-point configs (thorough). Command line: `phyclone run` invoked through click in-process "
+                "(pool replaced by an in-process executor), one option at a time (pairs in thorough) over every boundary value its click declaration accepts, incl. clamped out-of-range values, on 1 and 3 (clustered, 2 samples) mutations; non-trivial = config whose exploration ran >= 2 executions")
     chk.assumptions = ["deviation-bounded: not every random outcome of a whole run is enumerated; the completed bound is reported", "iterations 2-3, burn-in 1-2: long-run behaviour is not covered",
                        "continuous draws (concentration update) over a 7-quantile alphabet"]
     chk.exhaustive = False
@@ -164,6 +275,19 @@ def main(tier, seed):
             what = pr["problems"][0]
             chk.violation({"sub": "run", "what": what.split("@")[0].split(":")[0][:40] + ":" + (what.split(":")[1][:30] if ":" in what else ""), "n": cfg.get("n"), "proposal": cfg.get("proposal")},
                           {"config": cfg, "problem": pr}, {"config": cfg, "choices": pr["choices"], "policy": pr["policy"]})
+    # the widest seam: the same option values through the real command line (option alphabet read from the click declarations)
+    ncli = 0
+    for r in pool_imap(cli_case, cli_items(tier), chunksize=2):
+        ncli += 1
+        chk.transitions += 1
+        chk.traces_validated += 1
+        chk.states.add(json.dumps(["cli", r["item"]], sort_keys=True, default=str))
+        chk.nontrivial.add(json.dumps(["cli", r["item"]], sort_keys=True, default=str))
+        chk.bump("trace_entries_checked", r["entries"])
+        for pr in r["problems"][:2]:
+            chk.violation({"sub": "cli", "what": pr.split(":")[0][:60]}, {"data": list(r["item"][0]), "options": [list(o) for o in r["item"][1]], "problem": pr},
+                          {"cli": [list(r["item"][0]), [list(o) for o in r["item"][1]]]})
+    chk.note("command_line_runs", ncli)
     chk.note("configs", len(A) + len(B) + len(C))
     chk.note("explorations", len(items))
     chk.note("explorations_that_hit_the_execution_cap", capped)
@@ -176,6 +300,10 @@ def main(tier, seed):
 def replay(path):
     body = json.load(open(path))
     rp = body["replay"]
+    if "cli" in rp:
+        r = cli_case((tuple(rp["cli"][0]), tuple(tuple(o) for o in rp["cli"][1])))
+        print(r["problems"])
+        return 1 if r["problems"] else 0
     cfg = rp["config"]
     for k in ("max_time",):
         if cfg.get(k) in ("inf", "Infinity"):
